@@ -21,18 +21,22 @@ def labOf2 (ls : Labs) (v : Var) : Lbl := match ls.find? (fun e => e.1 == v) wit
 
 inductive Node2 where
   | leaf (c : Clause) (o : Origin) (labs : Labs)
+  /-- a theory lemma with the partial interpolants its interpolation procedure gives for the two cuts -/
+  | leafT (c : Clause) (labs : Labs) (i1 i2 : F)
   | res (n1 n2 : Node2) (p : Var)
 
 /-- the refutation as seen by the first cut (A₁ | G ∪ B₂) -/
 def Node2.proj1 : Node2 → Node
   | .leaf c .first ls => .leafA c (labOf1 ls)
   | .leaf c _ ls => .leafB c (labOf1 ls)
+  | .leafT c ls i1 _ => .leafT c (labOf1 ls) i1
   | .res n1 n2 p => .res n1.proj1 n2.proj1 p
 
 /-- the refutation as seen by the second cut (A₁ ∪ G | B₂) -/
 def Node2.proj2 : Node2 → Node
   | .leaf c .last ls => .leafB c (labOf2 ls)
   | .leaf c _ ls => .leafA c (labOf2 ls)
+  | .leafT c ls _ i2 => .leafT c (labOf2 ls) i2
   | .res n1 n2 p => .res n1.proj2 n2.proj2 p
 
 def Lbl.absent (x : Lbl) : Bool := !x.a && !x.b
@@ -48,12 +52,18 @@ def pairOK (x y : Lbl) : Bool :=
 /-- executable part of the well-formedness of a doubly labelled refutation: every entry fits, every literal of a leaf is labelled -/
 def Node2.labelsOK : Node2 → Bool
   | .leaf c _ ls => ls.all (fun e => pairOK e.2.1 e.2.2) && c.all (fun l => !(labOf1 ls l.var).absent)
+  | .leafT c ls _ _ => ls.all (fun e => pairOK e.2.1 e.2.2) && c.all (fun l => !(labOf1 ls l.var).absent)
   | .res n1 n2 _ => n1.labelsOK && n2.labelsOK
 
 /-- the semantic part: the leaves of the middle group follow from it -/
 def Node2.middleOk (G : Asg → Prop) : Node2 → Prop
   | .leaf c .middle _ => ∀ σ, G σ → cEval σ c = true
   | .leaf _ _ _ => True
+  -- what the theory's interpolation procedure owes for two consecutive cuts of one lemma: with the middle group and the
+  -- literals that changed sides false, the first partial interpolant gives the second
+  | .leafT c ls i1 i2 => ∀ σ, G σ → i1.eval σ = true →
+      cEval σ (c.filter (fun l => !((labOf1 ls l.var).onlyA && (labOf2 ls l.var).onlyA) && !((labOf1 ls l.var).onlyB && (labOf2 ls l.var).onlyB))) = false →
+      i2.eval σ = true
   | .res n1 n2 _ => n1.middleOk G ∧ n2.middleOk G
 
 end Osmt.Itp
